@@ -10,6 +10,19 @@ from props import c11
 
 
 def crash_event(trace, rc, txt):
+    # a child killed in mid-write leaves a torn last line: keep the complete events only, then append the crash
+    good = []
+    if os.path.exists(trace):
+        for line in open(trace):
+            try:
+                json.loads(line)
+                good.append(line if line.endswith('\n') else line + '\n')
+            except Exception:
+                break
+    if not good:
+        good = ['{"ev":"meta"}\n']
+    with open(trace, 'w') as f:
+        f.writelines(good)
     with open(trace, 'a') as f:
         f.write(json.dumps({'ev': 'crash', 'exit': rc, 'signal': -rc if rc < 0 else None, 'output': txt[-300:]}) + '\n')
 
